@@ -35,7 +35,15 @@ Definition constr_ok (x : nat -> Q) (c : constr) : Prop :=
   match crel c with RLe => (eval2 x (cexpr c) <= 0)%Q | REq => (eval2 x (cexpr c) == 0)%Q end.
 Definition feasible (p : program) (x : nat -> Q) : Prop :=
   (forall i k, nth_error (pkinds p) i = Some k -> kind_ok k (x i)) /\ Forall (constr_ok x) (pconstrs p).
-(* what is assumed of the solver when optimality is claimed (a hypothesis of theorems, never an axiom) *)
+(* what is assumed of the solver when optimality is claimed (a hypothesis of theorems, never an axiom): on the ONE
+   programme p that is handed to it, it returns a feasible point of minimum objective, and fails only if p is infeasible *)
+Definition solver_optimal_on (solver : program -> option (nat -> Q)) (p : program) : Prop :=
+  (forall x, solver p = Some x ->
+     feasible p x /\ forall y, feasible p y -> (eval2 x (pobj p) <= eval2 y (pobj p))%Q) /\
+  (solver p = None -> forall y, ~ feasible p y).
+(* NOT USED as a hypothesis anywhere: the same requirement for EVERY programme is satisfied by no solver, because
+   unbounded programmes have no optimum (Properties/C18.v, C18_solver_optimal_unsatisfiable).  Kept to document why
+   the theorems are stated per programme. *)
 Definition solver_optimal (solver : program -> option (nat -> Q)) : Prop :=
   forall p, (forall x, solver p = Some x ->
                feasible p x /\ forall y, feasible p y -> (eval2 x (pobj p) <= eval2 y (pobj p))%Q) /\
